@@ -14,16 +14,18 @@ import (
 func init() { registry["C15"] = checkC15 }
 
 type cgCase struct {
-	Parents map[string][]string `json:"parents"`
-	Shared  []string            `json:"shared"`
-	Alias   map[string]string   `json:"alias"`
-	Ty      string              `json:"ty"`
-	Wrap    string              `json:"wrap"`
-	Where   string              `json:"where"`
-	Layout  string              `json:"layout"`
-	Target  string              `json:"target"`
-	Members []string            `json:"members"`
-	Decl    map[string][]string `json:"decl"`
+	Parents    map[string][]string `json:"parents"`
+	Shared     []string            `json:"shared"`
+	Alias      map[string]string   `json:"alias"`
+	Ty         string              `json:"ty"`
+	Wrap       string              `json:"wrap"`
+	Where      string              `json:"where"`
+	Layout     string              `json:"layout"`
+	Split      string              `json:"split"`
+	Target     string              `json:"target"`
+	Members    []string            `json:"members"`
+	MembersDev []string            `json:"membersdev"`
+	Decl       map[string][]string `json:"decl"`
 }
 
 type cgData struct {
@@ -42,6 +44,7 @@ func cgBuild(id int, raw json.RawMessage) *Job {
 	}
 	d := &cgData{tc: &tc, files: map[string]string{}, fieldAt: map[string][2]string{}, defStep: map[string]int{}}
 	classes := []string{"KA", "KB", "KC"}
+	isClass := map[string]bool{"KA": true, "KB": true, "KC": true}
 	isShared := map[string]bool{}
 	for _, c := range tc.Shared {
 		isShared[c] = true
@@ -84,6 +87,11 @@ func cgBuild(id int, raw json.RawMessage) *Job {
 	d.files["types1.lua"] = text["types1.lua"].String()
 	d.files["types2.lua"] = text["types2.lua"].String()
 	d.files["types3.lua"] = text["types3.lua"].String()
+	if isClass[tc.Split] {
+		// the second declaration of the split class, in a file of its own
+		d.files["types4.lua"] = "---@class " + tc.Split + "\n---@field f_" + tc.Split + "x number\n"
+		d.fieldAt["types4.lua:1"] = [2]string{tc.Split, "f_" + tc.Split + "x"}
+	}
 	var mb strings.Builder
 	ml := 0
 	// wrapT writes the wrapper around a type name
@@ -96,7 +104,6 @@ func cgBuild(id int, raw json.RawMessage) *Job {
 		}
 		return t
 	}
-	isClass := map[string]bool{"KA": true, "KB": true, "KC": true}
 	for _, a := range []string{"X", "Y"} {
 		if t, ok := tc.Alias[a]; ok {
 			if tc.Where == "alias" && isClass[t] {
@@ -123,6 +130,9 @@ func cgBuild(id int, raw json.RawMessage) *Job {
 	d.all = []string{"fshared"}
 	for _, c := range classes {
 		d.all = append(d.all, "f_"+c)
+	}
+	if isClass[tc.Split] {
+		d.all = append(d.all, "f_"+tc.Split+"x")
 	}
 	sort.Strings(d.all)
 	type probe struct {
@@ -182,7 +192,7 @@ func cgBuild(id int, raw json.RawMessage) *Job {
 func cgJudge(c *Ctx, j *Job, res *proto.Result) {
 	d := j.Data.(*cgData)
 	c.Rep.Eval(string(j.Raw))
-	desc0 := fmt.Sprintf("parents=%v shared=%v alias=%v type=%s/%s(wrapper on %s) files=%s", d.tc.Parents, d.tc.Shared, d.tc.Alias, d.tc.Ty, d.tc.Wrap, d.tc.Where, d.tc.Layout)
+	desc0 := fmt.Sprintf("parents=%v shared=%v alias=%v type=%s/%s(wrapper on %s) files=%s split=%s", d.tc.Parents, d.tc.Shared, d.tc.Alias, d.tc.Ty, d.tc.Wrap, d.tc.Where, d.tc.Layout, d.tc.Split)
 	if res.Crash != "" || res.Hang {
 		desc := fmt.Sprintf("server died or hung on an annotation hierarchy (%s): crash=%q hang=%v at step %d", desc0, res.Crash, res.Hang, res.AtStep)
 		if surveyMode {
@@ -192,52 +202,60 @@ func cgJudge(c *Ctx, j *Job, res *proto.Result) {
 		c.Rep.Violation(j.Raw, desc)
 		return
 	}
-	members := map[string]bool{}
-	for _, m := range d.tc.Members {
-		members[m] = true
-	}
-	var prob []string
-	labels, ok := compLabels(res.Steps[d.compStep].Reply)
-	if !ok {
-		prob = append(prob, "completion reply not understood")
-	}
-	got := map[string]bool{}
-	for _, l := range labels {
-		got[l] = true
-	}
-	for _, f := range d.all {
-		if members[f] && !got[f] {
-			prob = append(prob, "member completion misses "+f)
+	judgeWith := func(ms []string) []string {
+		members := map[string]bool{}
+		for _, m := range ms {
+			members[m] = true
 		}
-		if !members[f] && got[f] {
-			prob = append(prob, "member completion offers "+f+" which the type does not have")
+		var prob []string
+		labels, ok := compLabels(res.Steps[d.compStep].Reply)
+		if !ok {
+			prob = append(prob, "completion reply not understood")
 		}
-	}
-	for _, f := range d.all {
-		locs, _ := projLocs(res.Root, res.Steps[d.defStep[f]].Reply)
-		if !members[f] {
-			// falling back to the variable's own declaration / annotation is not "offering a member"; landing on a
-			// ---@field line is
-			for _, l := range locs {
-				if _, isField := d.fieldAt[fmt.Sprintf("%s:%d", l.File, l.SL)]; isField {
-					prob = append(prob, fmt.Sprintf("definition on v.%s leads to the field line %s:%d although the type has no such member", f, l.File, l.SL))
-				}
+		got := map[string]bool{}
+		for _, l := range labels {
+			got[l] = true
+		}
+		for _, f := range d.all {
+			if members[f] && !got[f] {
+				prob = append(prob, "member completion misses "+f)
 			}
-			continue
+			if !members[f] && got[f] {
+				prob = append(prob, "member completion offers "+f+" which the type does not have")
+			}
 		}
-		okDef := false
-		if len(locs) == 1 {
-			if cf, ok := d.fieldAt[fmt.Sprintf("%s:%d", locs[0].File, locs[0].SL)]; ok && cf[1] == f {
-				for _, dc := range d.tc.Decl[f] {
-					if dc == cf[0] {
-						okDef = true
+		for _, f := range d.all {
+			locs, _ := projLocs(res.Root, res.Steps[d.defStep[f]].Reply)
+			if !members[f] {
+				// falling back to the variable's own declaration / annotation is not "offering a member"; landing on a
+				// ---@field line is
+				for _, l := range locs {
+					if _, isField := d.fieldAt[fmt.Sprintf("%s:%d", l.File, l.SL)]; isField {
+						prob = append(prob, fmt.Sprintf("definition on v.%s leads to the field line %s:%d although the type has no such member", f, l.File, l.SL))
+					}
+				}
+				continue
+			}
+			okDef := false
+			if len(locs) == 1 {
+				if cf, ok := d.fieldAt[fmt.Sprintf("%s:%d", locs[0].File, locs[0].SL)]; ok && cf[1] == f {
+					for _, dc := range d.tc.Decl[f] {
+						if dc == cf[0] {
+							okDef = true
+						}
 					}
 				}
 			}
+			if !okDef {
+				prob = append(prob, fmt.Sprintf("definition on v.%s leads to %v, not to the ---@field line of a declaring class %v", f, locs, d.tc.Decl[f]))
+			}
 		}
-		if !okDef {
-			prob = append(prob, fmt.Sprintf("definition on v.%s leads to %v, not to the ---@field line of a declaring class %v", f, locs, d.tc.Decl[f]))
-		}
+		return prob
+	}
+	prob := judgeWith(d.tc.Members)
+	if len(prob) > 0 && d.tc.MembersDev != nil && strings.Join(d.tc.MembersDev, ",") != strings.Join(d.tc.Members, ",") && len(judgeWith(d.tc.MembersDev)) == 0 {
+		c.Rep.Deviation("Dev_SplitClassLocalDeclarationHidesOthers", fmt.Sprintf("%s: the members are those of the reference closure without the field of the split class's second declaration %v", desc0, d.tc.MembersDev), j.Raw)
+		return
 	}
 	if len(prob) == 0 {
 		return
